@@ -81,12 +81,16 @@ def present(f, cfg):
     for tr in cfg['tr']:
         key = '%s_%s' % (''.join(tr['cat']), ''.join(tr['name']))
         rec = {'key': key, 'found': key in f.variables, 'shape': [],
-               'tracerid': -1, 'ok': False, 'x2': [], 'units': ''}
+               'tracerid': -1, 'ok': False, 'x2': [], 'units': '',
+               'start': [-1, -1, -1]}
         if rec['found']:
             v = f.variables[key]
             a = np.asarray(v[...], dtype='d')
             rec['shape'] = [int(s) for s in a.shape]
             rec['tracerid'] = int(getattr(v, 'tracerid', -1))
+            # window origin (0-based; the attributes are absent for 0, 0, 0)
+            rec['start'] = [int(getattr(v, k, 0))
+                            for k in ('STARTI', 'STARTJ', 'STARTK')]
             u = getattr(v, 'units', '')
             rec['units'] = (u.decode() if isinstance(u, bytes) else
                             str(u)).strip()
